@@ -100,6 +100,7 @@ JudgeRow(r) ==
      \cup (IF r.lt # (c = -1) \/ r.le # (c <= 0) \/ r.gt # (c = 1) \/ r.ge # (c >= 0) THEN {"ord.operators"} ELSE {})
      \cup (IF r.eq # (c = 0) \/ r.ne # (c # 0) THEN {"eq.operators"} ELSE {})
      \cup (IF r.cmp # c \/ r.pcmp # c THEN {"ord.cmp"} ELSE {})
+     \cup (IF r.panics # <<>> THEN {"ord.comparison_panics"} ELSE {})
 
 Interesting(r) ==
   (IF IsZero(r.a.l) \/ IsZero(r.b.l) THEN {"zero_operand"} ELSE {})
